@@ -22,7 +22,6 @@ import (
 	"fmt"
 	"math/rand"
 	"os"
-	"runtime"
 	"sort"
 	"strconv"
 	"strings"
@@ -214,12 +213,13 @@ type faceMapT struct {
 	real    map[uint64]uint64 // logical -> FaceID
 	logical map[uint64]uint64 // FaceID -> logical
 	tr      map[uint64]*face.VerifTransport
+	done    map[uint64]<-chan struct{} // closed when the link service's send goroutine (teardown) has returned
 }
 
 var curFaces *faceMapT
 
 func newFaceMap() *faceMapT {
-	return &faceMapT{real: map[uint64]uint64{}, logical: map[uint64]uint64{}, tr: map[uint64]*face.VerifTransport{}}
+	return &faceMapT{real: map[uint64]uint64{}, logical: map[uint64]uint64{}, tr: map[uint64]*face.VerifTransport{}, done: map[uint64]<-chan struct{}{}}
 }
 
 // id: the FaceID of a logical face; the face is a real NDNLP link service over an in-memory transport, started with
@@ -230,7 +230,7 @@ func (m *faceMapT) id(logical uint64) uint64 {
 	}
 	t := face.NewVerifTransport(8800, defn.NonLocal)
 	l := face.MakeNDNLPLinkService(t, face.MakeNDNLPLinkServiceOptions())
-	l.Run(nil)
+	m.done[logical] = face.VerifRunLinkService(l) // Run(nil) plus a completion signal of the send goroutine
 	m.real[logical] = l.FaceID()
 	m.logical[l.FaceID()] = logical
 	m.tr[logical] = t
@@ -238,26 +238,17 @@ func (m *faceMapT) id(logical uint64) uint64 {
 }
 
 
-// waitGoroutines waits until at most n goroutines are left (the two goroutines of a link service end only after its
-// teardown -- FaceTable.Remove and Rib.CleanUpFace -- has returned)
-func waitGoroutines(n int) {
-	deadline := time.Now().Add(2 * time.Second)
-	for runtime.NumGoroutine() > n && time.Now().Before(deadline) {
-		time.Sleep(100 * time.Microsecond)
-	}
-}
-
 // closeFace: the transport ends; the link service's own goroutines tear the face down (runSend -> FaceTable.Remove ->
-// Rib.CleanUpFace).  Returns when those goroutines are gone.
+// Rib.CleanUpFace).  Returns when runSend has returned (signalled by the hook that started the link service): no
+// wall-clock limit is involved.
 func (m *faceMapT) closeFace(logical uint64) {
 	m.id(logical)
 	t := m.tr[logical]
 	if t == nil {
 		return
 	}
-	before := runtime.NumGoroutine()
 	t.Close()
-	waitGoroutines(before - 2)
+	<-m.done[logical]
 	m.tr[logical] = nil
 }
 
